@@ -145,10 +145,16 @@ class Engine:
         node = None
         for i, p in enumerate(parts):
             found = None
+            nth = 1
+            if '@' in p:                      # 'name@2': the second definition with that name (property setter)
+                p, k = p.split('@')
+                nth = int(k)
             for n in body:
                 if isinstance(n, (ast.FunctionDef, ast.ClassDef)) and n.name == p:
-                    found = n
-                    break
+                    nth -= 1
+                    if nth == 0:
+                        found = n
+                        break
             if found is None:
                 raise KeyError('function %s not found in working tree' % key)
             node = found
@@ -499,6 +505,8 @@ class Engine:
             return b[1]
         if kind == 'str':
             return mk_str(b[1])
+        if kind == 'tuple_ctor':
+            return mk_obj('tuple_ctor', b[1])
         raise OutOfSubset('binding kind %s' % kind)
 
     def read_global(self, st, key):
@@ -814,7 +822,7 @@ class Engine:
         if isinstance(op, ast.Mult) and isinstance(b.t, TStr) and isinstance(a.t, TInt):
             return self.str_repeat(st, b, a)
         if isinstance(op, ast.Add) and isinstance(a.t, TList) and isinstance(b.t, TList):
-            return self.list_concat(a, b)
+            return self.list_concat(a, b, st)
         if isinstance(op, ast.Add) and isinstance(a.t, TTuple) and isinstance(b.t, TTuple):
             return mk_tuple([tuple_get(a, i) for i in range(len(a.t.elems))] +
                             [tuple_get(b, i) for i in range(len(b.t.elems))])
@@ -830,11 +838,23 @@ class Engine:
             st.assume(z3.InRe(r.e, z3.Star(z3.Re(s.e))))
         return r
 
-    def list_concat(self, a, b):
+    concat_axioms = False
+
+    def list_concat(self, a, b, st=None):
         if a.t != b.t:
             a, b = self.unify(a, b)
         i = z3.Int(fresh_name('ci'))
         la = list_len(a)
+        if self.concat_axioms and st is not None:
+            # axiomatic encoding (friendlier to E-matching than a lambda array under quantifiers)
+            r = self.fresh_val(st, a.t, 'cat')
+            st.assume(list_len(r) == la + list_len(b))
+            st.assume(z3.ForAll([i], z3.Implies(z3.And(0 <= i, i < la),
+                                                z3.Select(list_arr(r), i) == z3.Select(list_arr(a), i))))
+            j = z3.Int(fresh_name('cj'))
+            st.assume(z3.ForAll([j], z3.Implies(z3.And(la <= j, j < la + list_len(b)),
+                                                z3.Select(list_arr(r), j) == z3.Select(list_arr(b), j - la))))
+            return r
         arr = z3.Lambda([i], z3.If(i < la, z3.Select(list_arr(a), i), z3.Select(list_arr(b), i - la)))
         return mk_list(a.t, la + list_len(b), arr)
 
@@ -850,6 +870,9 @@ class Engine:
             a = self.coerce(a, INT)
         if isinstance(b.t, TBool):
             b = self.coerce(b, INT)
+        if line is None and (isinstance(a.t, TNone) or isinstance(b.t, TNone)):
+            # spec mode, total semantics: an order comparison with None has an unspecified value
+            return z3.Bool(fresh_name('undef'))
         if isinstance(a.t, TOpt) and isinstance(a.t.elem, TInt):
             if line is not None:
                 self.prove(st, z3.Not(opt_is_none(a)), 'noraise', line, 'None-compare')
@@ -1277,4 +1300,4 @@ def dotted_name(node):
 
 
 def mk_tuple_t(t, vals):
-    return Val(t, sort_of(t).mk(*[v.e for v in vals]))
+    return Val(t, sort_of(t).constructor(0)(*[v.e for v in vals]))
